@@ -201,6 +201,31 @@ def main():
             status[key] = dict(status='refused', reason=str(r))
         except Exception as r:
             status[key] = dict(status='refused', reason=repr(r)[:200])
+    # ---- ga_pow: `if b == 0: return 1 + 0*a; op = a.value; for i in range(1, b): op = gmt_func(op, a.value)`
+    try:
+        f = funcs['ga_pow']
+        top = [s for s in f.body if isinstance(s, ast.If)]
+        if len(top) != 1 or ast.unparse(top[0].test) != 'isinstance(a, MultiVectorType) and isinstance(b, types.Integer)':
+            raise Refuse("ga_pow dispatch")
+        pre = [ast.unparse(s) for s in top[0].body if not isinstance(s, ast.FunctionDef)]
+        if pre != ['gmt_func = a.layout_type.obj.gmt_func', 'return impl']:
+            raise Refuse("ga_pow prelude")
+        impl = [s for s in top[0].body if isinstance(s, ast.FunctionDef)][0]
+        src = [ast.unparse(s) for s in impl.body]
+        want = ["if b < 0:\n    raise NotImplementedError('Negative powers are currently not implemented')",
+                'if b == 0:\n    return 1 + 0 * a', 'op = a.value', 'for i in range(1, b):\n    op = gmt_func(op, a.value)',
+                'return a.layout.MultiVector(op)']
+        if src != want:
+            raise Refuse("ga_pow body")
+        out.append("def ga_pow (C : Ctx) (a : MV) (n : Nat) : MV :=\n"
+                   "  if n = 0 then C.jAddScalar (C.jMulScalar a 0) 1 else (List.range (n - 1)).foldl (fun op _ => C.gp op a) a\n")
+        thms.append(('nb_pow', "theorem nb_pow_eq (C : Model.Ctx) (a : Model.MV) (n : Nat) : GenNumba.ga_pow C a n = C.jPow a n := by\n"
+                               "  simp only [GenNumba.ga_pow, Model.Ctx.jPow]\n"))
+        status['nb_pow'] = dict(status='ok')
+    except Refuse as r:
+        status['nb_pow'] = dict(status='refused', reason=str(r))
+    except Exception as r:
+        status['nb_pow'] = dict(status='refused', reason=repr(r)[:200])
     out.append("end GenNumba\n\n")
     names = {}
     for name, t in thms:
